@@ -29,7 +29,8 @@ class GuardedList(list):
 
 
 def new_context(extra=None):
-    ctx = {'log': GuardedList(), 'glog': GuardedList(), 'gv': {}, 'cv': {}, 'v': 0, 'w': [], 'n': [[]]}
+    ctx = {'log': GuardedList(), 'glog': GuardedList(), 'gv': {}, 'cv': {}, 'fv': {}, 'v': 0, 'w': [],
+           'n': [[]]}
     if extra:
         ctx.update(extra)
     return ctx
@@ -47,6 +48,9 @@ def _sends(lst, val='v'):
         base = s.get('uid_base', 0)
         args = ['%r' % s['name'], ('uid=%d+%s*10+%d' % (base, val, j)) if base
                 else 'uid=%s*10+%d' % (val, j)]
+        if s.get('nouid'):
+            # anonymous events: equal to every other event of that name and delay
+            args = ['%r' % s['name']]
         if s.get('delay') is not None:
             args.append('delay=%r' % s['delay'])
         for k, val in sorted((s.get('params') or {}).items()):
@@ -104,10 +108,12 @@ def cond_code(cid, with_old, counter='v', active_name=None):
 
 def cond_code_fn(cid, with_old, counter='v'):
     """contract condition calling the harness function ``chk`` (fault injection by count)"""
+    sr = ("(sent('e0'), sent('e1'), sent('e2'), received('e0'), received('e1'), "
+          "received('e2'))")
     if with_old:
         old = OLD_EXPR[counter]
-        return "chk(%d, %s if __old__ is not None else None)" % (cid, old)
-    return "chk(%d, None)" % cid
+        return "chk(%d, %s if __old__ is not None else None, %s)" % (cid, old, sr)
+    return "chk(%d, None, %s)" % (cid, sr)
 
 
 _TID = re.compile(r"log\.append\(\('tr', (\d+), (?:v|len\(w\)|len\(n\[0\]\)), time\)\)")
